@@ -371,3 +371,184 @@ Proof. exact chk_hist_example. Qed.
 (* the existing theorems of this file do not depend on the reals: re-printed after the import *)
 Print Assumptions C11_session_isolated.
 Print Assumptions C11_alias_refuted.
+
+(* ================================================================================================================================
+   Tie (T) for the offline-training skeleton: the functions GENERATED on every run from the current text of reservoirpy/node.py --
+   Node.is_trainable (getter and setter) / is_trained_offline / is_trained_online / initialize_buffers / clean_buffers / get_buffer /
+   partial_fit / fit and _partial_backward_default -- by tools/vlib/py2coq_fit.py into gen/Gen_fit.v (vocabulary base/FitPrelude.v: a computation is
+   world -> world * outcome, Python list objects have identity, `try: B except Exception: H; raise`), proved in proofs/Gen_fit_eq.v.
+   The modules are required WITHOUT import (their names would shadow TrainSem's): every name below is qualified.
+   [view w n] reads node n of the world as a TrainSem node record (`_X is _Y` := the two references are equal, `_buffers` = {} := None);
+   [wf]: the node object is consistent with its class; [accepts]: check_xy / _init_with_sequences accept the data, split it into
+   [seqs] and leave the world alone; [i_binit / i_pb / i_bk]: the callbacks TrainSem assumes (a buffered rule rewrites `_buffers`;
+   every other node has the GENERATED default rule; `_backward` sets the learned side or raises);
+   [abs_out]: Ok = Done, TypeError = Rejected, ValueError = FailedPartial, an exception of the learning rule = FailedBackward. *)
+From RV Require base.FitPrelude gen.Gen_fit proofs.Gen_fit_eq.
+
+Section C11_generated.
+Context {P0 L St Row BufT Dat KW : Type}.
+Notation A' := ((nat * BufT) * list (nat * BufT))%type.
+Notation wd := (FitPrelude.world (Gen_fit_eq.nparams P0 L St) Row BufT).
+Variable acc0 : P0 -> A'.
+Variable acc_step : P0 -> A' -> list Row -> option (list Row) -> A'.
+Variable bk_buf : P0 -> A' -> option L.
+Variable bk_def : P0 -> list (list Row) -> list (list Row) -> option L.
+Variable cb_check_xy : nat -> Dat -> option Dat -> FitPrelude.M wd (Dat * option Dat).
+Variable cb_init : nat -> Dat -> option Dat -> FitPrelude.M wd (list (list Row) * option (list (option (list Row)))).
+Variable kw_empty : KW.
+Notation view := Gen_fit_eq.view.
+Notation wf := Gen_fit_eq.wf.
+Notation abs_out := Gen_fit_eq.abs_out.
+Notation accepts := (Gen_fit_eq.accepts cb_check_xy cb_init).
+Notation g_clean := (@Gen_fit.GenFit.Node_clean_buffers (Gen_fit_eq.nparams P0 L St) Row BufT).
+Notation g_init := (Gen_fit.GenFit.Node_initialize_buffers (Gen_fit_eq.i_binit acc0)).
+Notation g_pbd := (@Gen_fit.GenFit.partial_backward_default (Gen_fit_eq.nparams P0 L St) Row BufT).
+Notation g_partial_fit := (Gen_fit.GenFit.Node_partial_fit cb_check_xy cb_init (Gen_fit_eq.i_binit acc0) (Gen_fit_eq.i_pb acc_step)).
+Notation g_fit := (Gen_fit.GenFit.Node_fit cb_check_xy cb_init (Gen_fit_eq.i_binit acc0) (Gen_fit_eq.i_pb acc_step)
+                     (Gen_fit_eq.i_bk bk_buf bk_def) kw_empty).
+
+(* ---- the generated clean_buffers is TrainSem's clean_buffers: `self._X = self._Y = []` makes the two attributes ONE list object *)
+Theorem C11_generated_clean_buffers (n : nat) (w : wd) :
+  exists w', g_clean n w = (w', FitPrelude.Ok tt) /\ view w' n = clean_buffers (view w n) /\ (wf w n -> wf w' n) /\
+             FitPrelude.a_is_initialized (FitPrelude.w_obj w' n) = FitPrelude.a_is_initialized (FitPrelude.w_obj w n).
+Proof. exact (Gen_fit_eq.gen_clean_buffers_view n w). Qed.
+
+(* ---- the generated initialize_buffers is TrainSem's init_buffers: buffers are created only when there is none *)
+Theorem C11_generated_initialize_buffers (n : nat) (w : wd) :
+  wf w n -> exists w', g_init n w = (w', FitPrelude.Ok tt) /\ view w' n = init_buffers acc0 (view w n) /\ wf w' n.
+Proof. exact (Gen_fit_eq.gen_initialize_buffers_view acc0 n w). Qed.
+
+(* ---- the generated _partial_backward_default appends to the list OBJECTS: one list when `_X is _Y` (TrainSem's aliased branch) *)
+Theorem C11_generated_partial_backward_default (n : nat) (x : list Row) (y : option (list Row)) (w : wd) :
+  exists w', g_pbd n x y w = (w', FitPrelude.Ok tt) /\ FitPrelude.w_obj w' = FitPrelude.w_obj w /\
+    view w' n = (if Nat.eqb (FitPrelude.a_X (FitPrelude.w_obj w n)) (FitPrelude.a_Y (FitPrelude.w_obj w n))
+                 then let l := n_X (view w n) ++ [x] ++ opt_list y in set_xy l l true (view w n)
+                 else set_xy (n_X (view w n) ++ [x]) (n_Y (view w n) ++ opt_list y) false (view w n)).
+Proof. exact (Gen_fit_eq.gen_partial_backward_default_view n x y w). Qed.
+
+(* ---- the generated partial_fit is TrainSem's partial_fit, outcome included: for all data, every warm-up, every index of a too
+        short sequence (the earlier sequences have been accumulated, the later ones have not) *)
+Theorem C11_generated_partial_fit (n : nat) (X : Dat) (Y : option Dat) (warmup : nat) (kw : KW) (seqs : list (list Row * option (list Row)))
+        (w : wd) :
+  wf w n -> accepts n X Y seqs ->
+  let r := g_partial_fit n X Y warmup kw w in
+  (view (fst r) n, abs_out (snd r)) = partial_fit acc0 acc_step warmup (view w n) seqs /\ wf (fst r) n.
+Proof. exact (Gen_fit_eq.gen_partial_fit_eq acc0 acc_step cb_check_xy cb_init n X Y warmup kw seqs w). Qed.
+
+(* ---- the generated fit is TrainSem's fit under HEAD's clean-ups, outcome included, at every failure point *)
+Theorem C11_generated_fit (n : nat) (X : Dat) (Y : option Dat) (warmup : nat) (seqs : list (list Row * option (list Row))) (w : wd) :
+  wf w n -> accepts n X Y seqs ->
+  let r := g_fit n (Some X) Y warmup w in
+  (view (fst r) n, abs_out (snd r)) = fit acc0 acc_step bk_buf bk_def HEAD warmup (view w n) (Some seqs) /\ wf (fst r) n.
+Proof. exact (Gen_fit_eq.gen_fit_eq acc0 acc_step bk_buf bk_def cb_check_xy cb_init kw_empty n X Y warmup seqs w). Qed.
+
+Theorem C11_generated_fit_without_data (n : nat) (Y : option Dat) (warmup : nat) (w : wd) :
+  wf w n -> FitPrelude.a_is_initialized (FitPrelude.w_obj w n) = true ->
+  let r := g_fit n None Y warmup w in
+  (view (fst r) n, abs_out (snd r)) = fit acc0 acc_step bk_buf bk_def HEAD warmup (view w n) None /\ wf (fst r) n.
+Proof. exact (Gen_fit_eq.gen_fit_nodata_eq acc0 acc_step bk_buf bk_def cb_check_xy cb_init kw_empty n Y warmup w). Qed.
+
+(* ---- hence C11_fit_completed_clean / C11_fit_failed_clean hold of the generated fit ... *)
+Theorem C11_generated_fit_session_clean (n : nat) (X : Dat) (Y : option Dat) (warmup : nat) (seqs : list (list Row * option (list Row)))
+        (w : wd) :
+  wf w n -> accepts n X Y seqs ->
+  let r := g_fit n (Some X) Y warmup w in
+  abs_out (snd r) <> Rejected ->
+  session_clean (view (fst r) n) /\ n_aliased (view (fst r) n) = true /\
+  (abs_out (snd r) = Done -> n_fitted (view (fst r) n) = true) /\
+  (abs_out (snd r) <> Done -> n_learned (view (fst r) n) = n_learned (view w n)).
+Proof. exact (Gen_fit_eq.gen_fit_session_clean acc0 acc_step bk_buf bk_def cb_check_xy cb_init kw_empty n X Y warmup seqs w). Qed.
+
+(* ---- ... and so does C11_session_isolated: after ANY two fits (any worlds, any data, completed or failed anywhere) the next fit of the
+        node on the same data ends the same way in both and, when it completes, yields the same learned parameters *)
+Theorem C11_generated_session_isolated (n : nat) (wa wb : wd) (Xa : Dat) (Ya : option Dat) (seqsa : list (list Row * option (list Row)))
+        (ua : nat) (Xb : Dat) (Yb : option Dat) (seqsb : list (list Row * option (list Row))) (ub : nat)
+        (X : Dat) (Y : option Dat) (seqs : list (list Row * option (list Row))) (warmup : nat) :
+  wf wa n -> wf wb n -> accepts n Xa Ya seqsa -> accepts n Xb Yb seqsb -> accepts n X Y seqs ->
+  let ra := g_fit n (Some Xa) Ya ua wa in
+  let rb := g_fit n (Some Xb) Yb ub wb in
+  abs_out (snd ra) <> Rejected -> abs_out (snd rb) <> Rejected ->
+  n_kind (view (fst ra) n) = n_kind (view (fst rb) n) -> n_fixed (view (fst ra) n) = n_fixed (view (fst rb) n) ->
+  is_trained_offline (view (fst ra) n) = true -> is_trained_offline (view (fst rb) n) = true ->
+  let sa := g_fit n (Some X) Y warmup (fst ra) in
+  let sb := g_fit n (Some X) Y warmup (fst rb) in
+  abs_out (snd sa) = abs_out (snd sb) /\
+  (abs_out (snd sa) = Done -> n_learned (view (fst sa) n) = n_learned (view (fst sb) n)).
+Proof.
+  exact (Gen_fit_eq.gen_session_isolated acc0 acc_step bk_buf bk_def cb_check_xy cb_init kw_empty n wa wb Xa Ya seqsa ua Xb Yb seqsb ub
+           X Y seqs warmup).
+Qed.
+End C11_generated.
+
+(* ---- with NO assumption on the callbacks: whatever check_xy, _init_with_sequences, the buffers initialiser, `_partial_backward` and
+        `_backward` do to the world and wherever any of them raises, a fit of an offline-trainable node (given data, or initialised)
+        ends with `_buffers` empty and `_X`, `_Y` one empty list object *)
+Theorem C11_generated_fit_ends_clean {P Row Buf Dat KW : Type}
+        (cb_check_xy : nat -> Dat -> option Dat -> FitPrelude.M (FitPrelude.world P Row Buf) (Dat * option Dat))
+        (cb_init : nat -> Dat -> option Dat -> FitPrelude.M (FitPrelude.world P Row Buf) (list (list Row) * option (list (option (list Row)))))
+        (cb_binit : nat -> FitPrelude.M (FitPrelude.world P Row Buf) unit)
+        (cb_pb : nat -> list Row -> option (list Row) -> KW -> FitPrelude.M (FitPrelude.world P Row Buf) unit)
+        (cb_bk : nat -> nat -> nat -> FitPrelude.M (FitPrelude.world P Row Buf) unit) (kw_empty : KW)
+        (n : nat) (X Y : option Dat) (warmup : nat) (w : FitPrelude.world P Row Buf) :
+  FitPrelude.a_trainable (FitPrelude.w_obj w n) && FitPrelude.a_has_backward (FitPrelude.w_obj w n) = true ->
+  (X = None -> FitPrelude.a_is_initialized (FitPrelude.w_obj w n) = true) ->
+  Gen_fit_eq.session_clean_w n (fst (Gen_fit.GenFit.Node_fit cb_check_xy cb_init cb_binit cb_pb cb_bk kw_empty n X Y warmup w)).
+Proof. exact (Gen_fit_eq.gen_fit_ends_clean cb_check_xy cb_init cb_binit cb_pb cb_bk kw_empty n X Y warmup w). Qed.
+
+(* get_buffer: the stored array, AttributeError when the name is absent; nothing is written *)
+Theorem C11_generated_get_buffer {P Row Buf : Type} (n name : nat) (w : FitPrelude.world P Row Buf) :
+  Gen_fit.GenFit.Node_get_buffer n name w =
+  match FitPrelude.dict_get (FitPrelude.a_buffers (FitPrelude.w_obj w n)) name with
+  | Some v => (w, FitPrelude.Ok v)
+  | None => (w, FitPrelude.Exc FitPrelude.AttributeError)
+  end.
+Proof. exact (Gen_fit_eq.gen_get_buffer n name w). Qed.
+
+(* non-vacuity, by computation on the generated code: a default-buffer learner whose `_backward` returns the concatenation of the
+   two lists it is handed.  Its first fit sees inputs and targets apart; the SECOND fit of the same data gets them mixed in one list
+   under both names (the open finding refit:XY-aliased-default-buffers, reproduced on the translated code); a fit whose second
+   sequence is not longer than the warm-up raises ValueError and leaves nothing behind. *)
+Example C11_generated_refit_example :
+  let r1 := Gen_fit_eq.ex_fit [([1; 2], Some [3; 4])] 0 Gen_fit_eq.ex_world in
+  let r2 := Gen_fit_eq.ex_fit [([1; 2], Some [3; 4])] 0 (fst r1) in
+  snd r1 = FitPrelude.Ok tt /\ Gen_fit_eq.np_learned (FitPrelude.a_params (FitPrelude.w_obj (fst r1) 0)) = [[1; 2]; [3; 4]] /\
+  snd r2 = FitPrelude.Ok tt /\ Gen_fit_eq.np_learned (FitPrelude.a_params (FitPrelude.w_obj (fst r2) 0)) = [[1; 2]; [3; 4]; [1; 2]; [3; 4]] /\
+  Gen_fit_eq.session_clean_w 0 (fst r2).
+Proof. exact Gen_fit_eq.ex_refit_mixes. Qed.
+Example C11_generated_failed_fit_example :
+  let r := Gen_fit_eq.ex_fit [([1; 2; 3], Some [4; 5; 6]); ([7], Some [8])] 1 Gen_fit_eq.ex_world in
+  snd r = FitPrelude.Exc FitPrelude.ValueError /\ Gen_fit_eq.session_clean_w 0 (fst r) /\
+  FitPrelude.a_fitted (FitPrelude.w_obj (fst r) 0) = false.
+Proof. exact Gen_fit_eq.ex_failed_fit_clean. Qed.
+Example C11_generated_hypotheses_satisfiable :
+  Gen_fit_eq.wf Gen_fit_eq.ex_world 0 /\
+  forall X, Gen_fit_eq.accepts Gen_fit_eq.ex_check Gen_fit_eq.ex_split 0 X None X.
+Proof. exact (conj Gen_fit_eq.ex_wf Gen_fit_eq.ex_accepts). Qed.
+
+Print Assumptions C11_generated_clean_buffers.
+Print Assumptions C11_generated_initialize_buffers.
+Print Assumptions C11_generated_partial_backward_default.
+Print Assumptions C11_generated_partial_fit.
+Print Assumptions C11_generated_fit.
+Print Assumptions C11_generated_fit_without_data.
+Print Assumptions C11_generated_fit_session_clean.
+Print Assumptions C11_generated_session_isolated.
+Print Assumptions C11_generated_fit_ends_clean.
+Print Assumptions C11_generated_get_buffer.
+
+(* ---- the is_trainable setter (translated too) is TrainSem's set_trainable, the OFreeze operation: `_trainable` is written only when the
+        node currently is trainable offline or online, so a node without a learning rule ignores it and a FROZEN node is never unfrozen
+        (what C11_frozen_forever rests on); a value that is not exactly a bool is refused and nothing is written *)
+Theorem C11_generated_set_is_trainable {P0 L St Row BufT : Type} (n : nat) (b : bool)
+        (w : FitPrelude.world (Gen_fit_eq.nparams P0 L St) Row BufT) :
+  Gen_fit_eq.wf w n -> Gen_fit_eq.wf_train w n ->
+  let r := Gen_fit.GenFit.Node_set_is_trainable n (Some b) w in
+  snd r = FitPrelude.Ok tt /\ Gen_fit_eq.view (fst r) n = set_trainable b (Gen_fit_eq.view w n) /\
+  Gen_fit_eq.wf (fst r) n /\ Gen_fit_eq.wf_train (fst r) n.
+Proof. exact (Gen_fit_eq.gen_set_is_trainable_view n b w). Qed.
+Theorem C11_generated_set_is_trainable_not_bool {P0 L St Row BufT : Type} (n : nat)
+        (w : FitPrelude.world (Gen_fit_eq.nparams P0 L St) Row BufT) :
+  fst (Gen_fit.GenFit.Node_set_is_trainable n None w) = w.
+Proof. exact (Gen_fit_eq.gen_set_is_trainable_not_bool n w). Qed.
+Print Assumptions C11_generated_set_is_trainable.
+Print Assumptions C11_generated_set_is_trainable_not_bool.
